@@ -270,7 +270,9 @@ CHECKS = {
               "bounds; xold shifts) in exact rationals; TLC checks for every position of x, xold1, xold2 on a rational grid, "
               "every reachable offset, albefa and move that the offsets stay in their band, low < alfa <= x <= beta < upp, "
               "xmin <= alfa, beta <= xmax and the move limit, that per-signal / per-variable bounds expand to the per-variable "
-              "vector and that the design vector splits back to the signals; a variant without the xmin clause is refuted. "
+              "vector and that the design vector splits back to the signals; a variant without the xmin clause is refuted. Every "
+              "case of that set-up is replayed on the real MMA.mmasub (both versions): offsets, asymptotes and admissible interval "
+              "exactly, approximation value and gradient at x. "
               "Runs of MMA on generated convex problems (1-3 signals incl. scalars; scalar, per-signal and per-variable bounds "
               "and move limits; both MMA versions; several asymptote parameters; 1-2 constraints) are recorded at every "
               "sub-problem through a patched subsolv, a wrapped mmasub and fn_callback, in fixed point, and validated by "
